@@ -111,7 +111,10 @@ func diffIR(a, b *ir.File) []string {
 }
 
 // normalisation: nil and empty slices are the same structure.
-func normRule(r ir.Rule) string { b, _ := json.Marshal(r); return string(bytes.ReplaceAll(b, []byte("null"), []byte("[]"))) }
+func normRule(r ir.Rule) string {
+	b, _ := json.Marshal(r)
+	return string(bytes.ReplaceAll(b, []byte("null"), []byte("[]")))
+}
 func normGroup(g ir.RuleGroup) string {
 	b, _ := json.Marshal(g)
 	return string(bytes.ReplaceAll(b, []byte("null"), []byte("[]")))
